@@ -717,7 +717,8 @@ fn gen_ops(rng: &mut Rng, file: &[u8], plen: usize, seekable: bool) -> Vec<Op> {
                 1 => plen as u64,
                 _ => rng.below(plen as u64 + 1),
             }),
-            _ => Op::Seek(file.len() as u64, 0),
+            _ if rng.chance(1, 5) => Op::Seek(file.len() as u64, 0),
+            _ => Op::Fill,
         };
         ops.push(o);
     }
